@@ -40,16 +40,21 @@ Example C16_nonvacuous :
 Proof. unfold valid_time; simpl; split; [lia | reflexivity]. Qed.
 
 (* ---------- literals of the specification and text round trips (added with the specification object Spec/Spec.v) ---------- *)
-From Klog Require Import Spec.Spec Proofs.SpecValues.
+From Klog Require Import Spec.Spec Proofs.SpecValues Proofs.SpecLiterals.
 
-(* every time literal of the specification (optional leading zero, 24-hour / am / pm, 24:00 and <24:00, < and > shifts)
-   is accepted with the value it denotes — all 27,000 spellings, by a sweep whose bounds are those of wf_time.
-   (The converse, "every other string of the shape is rejected", is exercised exhaustively by the correspondence
-   suite values/times over all 132,000 strings; it is not yet a Coq theorem: hence _partial.) *)
-Theorem C16_time_literals_partial : forall t, wf_time t = true ->
+(* the strings NewTimeFromString accepts are EXACTLY the time literals of the specification (optional leading zero,
+   24-hour / am / pm, 24:00 and <24:00, < and > shifts), each with the value it denotes. Right to left: a sweep over the
+   27,000 spellings (bounds = wf_time); left to right: inversion of the recogniser and a sweep over all 132,000 strings
+   of the shape `<?D{1,2}:DD(am|pm)?>?` *)
+Theorem C16_time_literals : forall s t,
+  parse_time s = Ok t <-> exists st, wf_time st = true /\ s = render_time st /\ t = denote_time st.
+Proof. exact time_literals. Qed.
+Print Assumptions C16_time_literals.
+
+Theorem C16_time_literals_accepted : forall t, wf_time t = true ->
   parse_time (render_time t) = Ok (denote_time t) /\ valid_time (denote_time t) /\ time_offset (denote_time t) = timeline t.
 Proof. exact time_literals_accepted. Qed.
-Print Assumptions C16_time_literals_partial.
+Print Assumptions C16_time_literals_accepted.
 
 (* Time.ToString writes a specification spelling, and that spelling denotes the time: 8,640 values *)
 Theorem C16_print_time_is_literal : forall t, valid_time t ->
@@ -57,24 +62,36 @@ Theorem C16_print_time_is_literal : forall t, valid_time t ->
 Proof. exact ct_all. Qed.
 Print Assumptions C16_print_time_is_literal.
 
-(* every date literal (all Gregorian dates 0000-9999, both separators) is accepted with its value; a literal of the
-   right shape that is not a Gregorian date is rejected *)
-Theorem C16_date_literals_partial : forall d,
+(* the strings NewDateFromString accepts are EXACTLY the date literals: four-digit year, two-digit month and day, the same
+   separator - or / twice, a date of the Gregorian calendar 0000-9999 *)
+Theorem C16_date_literals : forall s d,
+  parse_date s = Ok d <-> exists sd, wf_date sd = true /\ s = render_date sd /\ d = denote_date sd.
+Proof. exact date_literals_iff. Qed.
+Print Assumptions C16_date_literals.
+
+(* a literal of the right shape that is not a Gregorian date is rejected with "unrepresentable date" *)
+Theorem C16_date_literals_accepted : forall d,
   (wf_date d = true -> parse_date (render_date d) = Ok (denote_date d)) /\
   (0 <= sd_year d <= 9999 -> 0 <= sd_month d <= 99 -> 0 <= sd_day d <= 99 -> wf_date d = false ->
    parse_date (render_date d) = Err EUnrepresentableDate).
 Proof. exact date_literals. Qed.
-Print Assumptions C16_date_literals_partial.
+Print Assumptions C16_date_literals_accepted.
 
 Theorem C16_date_roundtrip : forall d, valid_cdate (dt d) = true -> parse_date (print_date d) = Ok d.
 Proof. exact date_roundtrip. Qed.
 Print Assumptions C16_date_roundtrip.
 
-(* every duration literal (sign x optional hours x optional minutes, any leading zeros, minutes < 60 when hours are
-   present) whose amount fits int64 is accepted with its value and notation flags *)
-Theorem C16_duration_literals_partial : forall d, wf_dur d = true -> parse_duration (render_dur d) = Ok (denote_dur d).
+(* the strings NewDurationFromString accepts are EXACTLY the duration literals (sign x optional hours x optional minutes,
+   any leading zeros, minutes < 60 when hours are present) whose amount fits int64; beyond that guard it panics (next
+   theorem, finding K5) *)
+Theorem C16_duration_literals : forall s d,
+  parse_duration s = Ok d <-> exists sd, wf_dur sd = true /\ s = render_dur sd /\ d = denote_dur sd.
+Proof. exact duration_literals. Qed.
+Print Assumptions C16_duration_literals.
+
+Theorem C16_duration_literals_accepted : forall d, wf_dur d = true -> parse_duration (render_dur d) = Ok (denote_dur d).
 Proof. exact parse_render_dur. Qed.
-Print Assumptions C16_duration_literals_partial.
+Print Assumptions C16_duration_literals_accepted.
 
 (* beyond the int64 guard the constructor panics, for every literal of the right shape (finding K5) *)
 Theorem C16_duration_overflow_crashes : forall d, dur_shape d = true -> max_int64 < dur_amount d ->
